@@ -177,6 +177,11 @@ pub struct Spec {
     /// when several functions of the name exist (cfg variants): the one whose own / impl attributes contain
     /// (true) / do not contain (false) the string
     pub attr_filter: Option<(&'static str, bool)>,
+    /// not a function at all: the INVENTORY of a file - which types implement the given traits and which
+    /// invocations of the given macros exist - as a `list (string * string)` (trait / macro name, type / arguments)
+    pub inventory: Option<(Vec<&'static str>, Vec<&'static str>)>,
+    /// Coq type of the value of a (non-step) kernel, where it cannot be inferred (a bare `None` / `Err(..)`)
+    pub annot: Option<&'static str>,
 }
 
 impl Spec {
@@ -259,7 +264,7 @@ fn base(module: &'static str, group: &'static str, file: &'static str, name: &'s
         recv_groups: vec![], id_methods: vec![], skip_as: vec![], rewrite: vec![], ctors: vec![], argsel: vec![],
         skip_loops: false, ret_wrap: None, note: "",
         type_params: vec![], recv_arg: vec![], break_value: false, loop_cond: false, effects_ret: false, with_locals: vec![],
-        ptr_checked: false, closure_params: vec![], after_loop: None, skip_lets: vec![], iter_fold: None, via: None, positions: vec![], attr_filter: None,
+        ptr_checked: false, closure_params: vec![], after_loop: None, skip_lets: vec![], iter_fold: None, via: None, positions: vec![], attr_filter: None, inventory: None, annot: None,
     }
 }
 
@@ -1054,6 +1059,53 @@ pub fn table() -> Vec<Spec> {
             t.push(s);
         }
     }
+    {
+        // ---- w1c: the raw-fd impls hand the SAME buffer to the raw-fd function (no cap, no loop), and which types have them
+        let ifile = "src/io.rs";
+        let mk = |name: &'static str, f: &'static str, loc: Loc, callee: &'static str| {
+            let mut s = base("Io", "IoFd", ifile, name, f, loc);
+            s.canon_params = vec!["buf"];
+            s.param_tys = vec![("buf", Ty::Abs("B"))];
+            s.type_params = vec!["FD", "B", "R"];
+            s.extra = vec![ext("self", "fd", "FD", Ty::Abs("FD"))];
+            s.fns = vec![ofn(callee, "raw_fd_call", "FD -> B -> R", Ty::Unknown)];
+            s
+        };
+        let in_mac = |tr: &'static str, f: &'static str| Loc::InMacro { mac: "impl_read_write_volatile_for_raw_fd", subst: vec![("raw_fd_ty", "RawFdTy")],
+                                                                       inner: Box::new(Loc::Impl { ty: "RawFdTy", tr: Some(tr), f }) };
+        t.push(mk("fd_read_volatile", "read_volatile", in_mac("ReadVolatile", "read_volatile"), "read_volatile_raw_fd"));
+        t.push(mk("fd_write_volatile", "write_volatile", in_mac("WriteVolatile", "write_volatile"), "write_volatile_raw_fd"));
+        t.push(mk("stdout_write_volatile", "write_volatile", Loc::Impl { ty: "Stdout", tr: Some("WriteVolatile"), f: "write_volatile" }, "write_volatile_raw_fd"));
+        let mut s = base("Io", "IoFd", ifile, "io_inventory", "(inventory)", Loc::Free("(inventory)"));
+        s.inventory = Some((vec!["ReadVolatile", "WriteVolatile"], vec!["impl_read_write_volatile_for_raw_fd"]));
+        t.push(s);
+        // NewBitmap::with_len: AtomicBitmap::new(len, page size from sysconf), len unchanged
+        let mut s = base("AtomicBitmap", "AtomicBitmap", "src/bitmap/backend/atomic_bitmap.rs", "with_len", "with_len", Loc::Impl { ty: "AtomicBitmap", tr: Some("NewBitmap"), f: "with_len" });
+        s.type_params = vec!["R"];
+        s.extra = vec![ex("unsafe { libc :: sysconf (libc :: _SC_PAGE_SIZE) }", "sysconf_page_size", Ty::ISize)];
+        s.fns = vec![ofn("new", "bitmap_new", "N -> N -> R", Ty::Unknown)];
+        t.push(s);
+        // atomic_integer.rs impl_atomic_integer_ops!: load / store forward `order` unchanged
+        for (name, f) in [("atomic_load", "load"), ("atomic_store", "store")] {
+            let mut s = base("Atomic", "Atomic", "src/atomic_integer.rs", name, f,
+                             Loc::InMacro { mac: "impl_atomic_integer_ops", subst: vec![("T", "AtomT"), ("V", "u64")], inner: Box::new(Loc::Impl { ty: "AtomT", tr: Some("AtomicInteger"), f }) });
+            s.canon_params = if f == "store" { vec!["val", "order"] } else { vec!["order"] };
+            s.param_tys = vec![("order", Ty::Abs("ORD"))];
+            s.type_params = vec!["ORD", "R"];
+            s.fns = vec![ofn(f, "std_call", if f == "store" { "N -> ORD -> R" } else { "ORD -> R" }, Ty::Unknown)];
+            t.push(s);
+        }
+        // GuestMemoryRegion defaults: no host address / slice / file offset unless the implementor overrides; as_volatile_slice = get_slice(0, len)
+        for (name, f) in [("region_default_get_host_address", "get_host_address"), ("region_default_get_slice", "get_slice"),
+                          ("region_default_file_offset", "file_offset"), ("region_default_as_volatile_slice", "as_volatile_slice")] {
+            let mut s = base("Guest", "GuestRegionDefaults", gfile, name, f, Loc::Trait("GuestMemoryRegion", f));
+            s.type_params = vec!["R"];
+            s.extra = vec![ex("self . len ()", "len", Ty::Int(64))];
+            s.fns = vec![ofn("get_slice", "get_slice", "N -> N -> R", Ty::Unknown)];
+            s.annot = match f { "get_host_address" => Some("rres N"), "get_slice" => Some("rres R"), "file_offset" => Some("option N"), _ => None };
+            t.push(s);
+        }
+    }
     // ------------------------------------------------------------------ src/mmap/mod.rs
     {
         let mut s = base("Mmap", "Mmap", "src/mmap/mod.rs", "check_file_offset", "check_file_offset", Loc::Free("check_file_offset"));
@@ -1107,6 +1159,65 @@ pub fn table() -> Vec<Spec> {
         s.skip = vec!["self . regions . clone ()", "regions . remove (region_index)"];
         t.push(s);
     }
+    {
+        // ---- w1c: region construction and the region-level Bytes<MemoryRegionAddress> delegation
+        let mfile = "src/mmap/mod.rs";
+        let abs = |n: &'static str| Ty::Abs(n);
+        let rabs = |n: &'static str| Ty::Res(Box::new(Ty::Abs(n)));
+        // GuestRegionMmap::from_range, both cfg variants: the mapping is built, then EVERYTHING goes through Self::new(region, addr)
+        let mut s = base("Mmap", "MmapCtor", mfile, "from_range_unix", "from_range", Loc::Impl { ty: "GuestRegionMmap", tr: None, f: "from_range" });
+        s.attr_filter = Some(("not (feature = \"xen\")", true));
+        s.canon_params = vec!["addr", "size", "file"];
+        s.param_tys = vec![("file", opt(abs("F")))];
+        s.type_params = vec!["F", "M", "R"];
+        s.id_methods = vec!["clone"];
+        s.fns = vec![ofn("from_file", "from_file", "F -> N -> rres M", rabs("M")), ofn("new", "region_new", "N -> rres M", rabs("M")),
+                     ofn("guest_region_new", "guest_region_new", "M -> N -> rres R", Ty::Res(Box::new(Ty::Abs("R"))))];
+        s.positions = vec![("let#0", "region")];
+        s.rewrite = vec![("Self :: new (region , addr)", "guest_region_new (region , addr)")];
+        t.push(s);
+        let mut s = base("Mmap", "MmapCtor", mfile, "from_range_xen", "from_range", Loc::Impl { ty: "GuestRegionMmap", tr: None, f: "from_range" });
+        s.attr_filter = Some(("not (feature = \"xen\")", false));
+        s.canon_params = vec!["addr", "size", "file"];
+        s.param_tys = vec![("file", abs("F"))];
+        s.type_params = vec!["F", "RNG", "M", "R"];
+        s.fns = vec![ofn("new_unix", "new_unix", "N -> F -> N -> RNG", abs("RNG")), ofn("from_range", "region_from_range", "RNG -> rres M", rabs("M")),
+                     ofn("guest_region_new", "guest_region_new", "M -> N -> rres R", Ty::Res(Box::new(Ty::Abs("R"))))];
+        s.positions = vec![("let#1", "region")];
+        s.rewrite = vec![("Self :: new (region , addr)", "guest_region_new (region , addr)")];
+        t.push(s);
+        // Bytes<MemoryRegionAddress> for GuestRegionMmap: as_volatile_slice().unwrap().<same method>(addr.0 as usize, ..)
+        // with the error converted and NOTHING else (a mark_dirty of its own would be an unknown call)
+        for (f, sel) in [("write", vec![1usize]), ("read", vec![1]), ("write_slice", vec![1]), ("read_slice", vec![1]),
+                         ("read_volatile_from", vec![0, 2]), ("read_exact_volatile_from", vec![0, 2]),
+                         ("write_volatile_to", vec![0, 2]), ("write_all_volatile_to", vec![0, 2])] {
+            let name: &'static str = Box::leak(format!("region_{}", f).into_boxed_str());
+            let mut s = base("Mmap", "RegionBytes", mfile, name, f, Loc::Impl { ty: "GuestRegionMmap", tr: Some("Bytes"), f });
+            s.canon_params = if sel.len() == 1 { vec!["buf", "addr"] } else { vec!["addr", "stream", "count"] };
+            s.drop_params = vec!["buf", "stream"];
+            s.type_params = vec!["VS", "R"];
+            s.extra = vec![ext("self . as_volatile_slice () . unwrap ()", "vs", "VS", abs("VS"))];
+            let cty: &'static str = if sel.len() == 1 { "VS -> N -> rres R" } else { "VS -> N -> N -> rres R" };
+            s.fns = vec![ofn(f, "slice_call", cty, rabs("R"))];
+            s.recv_arg = vec![f];
+            s.argsel = vec![(f, sel)];
+            t.push(s);
+        }
+        for (f, sel, canon) in [("store", vec![1usize, 2], vec!["val", "addr", "order"]), ("load", vec![0, 1], vec!["addr", "order"])] {
+            let name: &'static str = Box::leak(format!("region_{}", f).into_boxed_str());
+            let mut s = base("Mmap", "RegionBytes", mfile, name, f, Loc::Impl { ty: "GuestRegionMmap", tr: Some("Bytes"), f });
+            s.canon_params = canon;
+            s.drop_params = vec!["val"];
+            s.param_tys = vec![("order", abs("ORD"))];
+            s.type_params = vec!["VS", "ORD", "R"];
+            s.extra = vec![ext("self . as_volatile_slice ()", "vs_res", "rres VS", rabs("VS"))];
+            s.fns = vec![ofn(f, "slice_call", "VS -> N -> ORD -> rres R", rabs("R"))];
+            s.recv_arg = vec![f];
+            s.argsel = vec![(f, sel)];
+            s.closure_params = vec![("s", abs("VS"))];
+            t.push(s);
+        }
+    }
     // ------------------------------------------------------------------ src/mmap/unix.rs
     {
         let ufile = "src/mmap/unix.rs";
@@ -1129,6 +1240,15 @@ pub fn table() -> Vec<Spec> {
             ext("self . raw_ptr", "raw_ptr", "option N", opt(Ty::Ptr)),
         ];
         s.fields = vec!["addr", "owned"];
+        t.push(s);
+    }
+    {
+        // w1c: MmapRegion::get_slice (unix): pointer = base + offset, bitmap = slice_at(the SAME offset), no mapping handle
+        let mut s = base("MmapUnix", "MmapUnix", "src/mmap/unix.rs", "region_get_slice", "get_slice", Loc::Impl { ty: "MmapRegion", tr: Some("VolatileMemory"), f: "get_slice" });
+        s.type_params = vec!["BM", "E"];
+        s.extra = vec![ex("self . addr", "addr", Ty::Ptr)];
+        s.fns = vec![ofn("slice_at", "slice_at", "N -> BM", Ty::Abs("BM")), ofn("compute_end_offset", "compute_end_offset", "N -> N -> rres E", Ty::Res(Box::new(Ty::Abs("E"))))];
+        s.ctors = vec![("with_bitmap", vec![0, 2, 3])];
         t.push(s);
     }
     // ------------------------------------------------------------------ src/mmap/xen.rs
@@ -1186,6 +1306,16 @@ pub fn table() -> Vec<Spec> {
         s.consts = vec![("XEN_GRANT_ADDR_OFF".to_string(), "9223372036854775808".to_string(), Ty::Int(64))];
         s.locals = Some(vec!["base"]);
         s.positions = vec![("let#0", "base")];
+        t.push(s);
+    }
+    {
+        // w1c: MmapRegion::get_slice (xen): as above, and the handle is Some(&self.mmap) exactly when the region is not mapped in advance
+        let mut s = base("Xen", "Xen", xfile, "region_get_slice", "get_slice", Loc::Impl { ty: "MmapRegion", tr: Some("VolatileMemory"), f: "get_slice" });
+        s.type_params = vec!["BM", "E"];
+        s.extra = vec![ex("self . as_ptr ()", "addr", Ty::Ptr), ex("self . mmap . mmap_in_advance ()", "in_advance", Ty::Bool), ex("self . mmap", "the_mmap", Ty::Unit)];
+        s.fns = vec![ofn("slice_at", "slice_at", "N -> BM", Ty::Abs("BM")), ofn("compute_end_offset", "compute_end_offset", "N -> N -> rres E", Ty::Res(Box::new(Ty::Abs("E"))))];
+        s.ctors = vec![("with_bitmap", vec![0, 2, 3])];
+        s.positions = vec![("let#1", "mmap_info")];
         t.push(s);
     }
     // ------------------------------------------------------------------ src/endian.rs
